@@ -204,3 +204,14 @@ M("c11-nan-to-zero", "C11", "process_lf replaces NaN keypoints by 0", PRV, "    
 MUTANTS.append({"id": "c11-user-filter-ignored-both", "property": "C11", "desc": "user-instance filter disabled in process_lf and in BaseDataset._get_lf_idx_list (two sites)", "edits": [
     {"file": PRV, "old": "    if user_instances_only:\n        if lf.user_instances is not None and len(lf.user_instances) > 0:\n            lf.instances = lf.user_instances\n\n    image = np.transpose", "new": "    if False:\n        if lf.user_instances is not None and len(lf.user_instances) > 0:\n            lf.instances = lf.user_instances\n\n    image = np.transpose", "count": 1},
     {"file": CDS, "old": "            if self.data_config.user_instances_only:\n                if lf.user_instances is not None and len(lf.user_instances) > 0:\n                    lf.instances = lf.user_instances\n            is_empty = True", "new": "            if False:\n                if lf.user_instances is not None and len(lf.user_instances) > 0:\n                    lf.instances = lf.user_instances\n            is_empty = True", "count": 1}]})
+
+SI = "sleap_nn/inference/single_instance.py"
+TD = "sleap_nn/inference/topdown.py"
+M("c02-revert-labels-preprocess", "C02", "revert LabelsReader preprocess fix (single instance)", PD, "            # frames are resized to the input scale and padded to the max stride here,\n            # exactly as for the VideoReader (the inference model does not do it).\n            self.preprocess = True\n            self.preprocess_config = {\n                \"batch_size\": self.batch_size,\n                \"scale\": self.confmap_config", "            self.preprocess = False\n            self.preprocess_config = {\n                \"batch_size\": self.batch_size,\n                \"scale\": self.confmap_config")
+M("c02-stride-dropped", "C02", "single: peaks*stride dropped when refinement is on", SI, "        peak_points = peak_points * self.output_stride\n", "        peak_points = peak_points * (self.output_stride if self.refinement is None else 1)\n")
+M("c02-effscale-twice", "C02", "FindInstancePeaks divides bbox by eff_scale twice", TD, "        inputs[\"instance_bbox\"] = inputs[\"instance_bbox\"] / self.input_scale\n", "        inputs[\"instance_bbox\"] = inputs[\"instance_bbox\"] / self.input_scale\n        inputs[\"instance_bbox\"] = inputs[\"instance_bbox\"] / (inputs[\"eff_scale\"].unsqueeze(dim=1).unsqueeze(dim=2).unsqueeze(dim=3))\n")
+M("c02-precrop-dropped", "C02", "CentroidCrop forgets to scale peaks by precrop_resize", TD, "                for ref_peak in self.refined_peaks_batched:\n                    scaled_refined_peaks.append(ref_peak * self.precrop_resize)\n                self.refined_peaks_batched = scaled_refined_peaks\n                inputs.update(", "                for ref_peak in self.refined_peaks_batched:\n                    scaled_refined_peaks.append(ref_peak * 1.0)\n                self.refined_peaks_batched = scaled_refined_peaks\n                inputs.update(")
+M("c02-input-scale-centroid", "C02", "CentroidCrop divides by input_scale twice", TD, "        refined_peaks = refined_peaks / self.input_scale\n", "        refined_peaks = refined_peaks / self.input_scale / (self.input_scale if self.output_stride == 4 else 1.0)\n")
+M("c02-bbox-offset", "C02", "make_centered_bboxes offsets dropped", IC, "    return corners + offset\n", "    return corners\n")
+M("c02-effscales-shared", "C02", "eff_scales of the batch replaced by the first frame's", PD, "                eff_scales = torch.tensor(eff_scales, dtype=torch.float32)\n", "                eff_scales = torch.tensor([eff_scales[0]] * len(eff_scales), dtype=torch.float32)\n")
+M("c02-sizematch-xy", "C02", "_predict_generator passes max_width as max_height", PD, "                    self.preprocess_config[\"max_height\"],\n                    self.preprocess_config[\"max_width\"],\n                )\n                if self.instances_key:", "                    self.preprocess_config[\"max_width\"],\n                    self.preprocess_config[\"max_height\"],\n                )\n                if self.instances_key:")
